@@ -154,3 +154,54 @@ def enclosing_function(pm, node):
 def function_params(fnode) -> List[str]:
     a = fnode.args
     return [x.arg for x in a.posonlyargs + a.args + a.kwonlyargs]
+
+
+# ---------------------------------------------------------------------- guards through boolean locals
+def _bool_defs(fn) -> Dict[str, ast.expr]:
+    """{local: defining expression} for locals bound exactly once, to a comparison / boolean combination / `not`
+    (a named condition: `same_count = n == len(desc)`), whose own operands are not rebound anywhere in `fn`."""
+    from ..astutil import name_stores
+    by: Dict[str, List[Optional[ast.expr]]] = {}
+    for n, v, s in name_stores(fn):
+        by.setdefault(n, []).append(v)
+    nstores = {n: len(vs) for n, vs in by.items()}
+    params = {a.arg for a in fn.args.posonlyargs + fn.args.args + fn.args.kwonlyargs} if hasattr(fn, "args") else set()
+    out = {}
+    for n, vs in by.items():
+        if len(vs) != 1 or vs[0] is None or n in params:
+            continue
+        v = vs[0]
+        if not isinstance(v, (ast.Compare, ast.BoolOp)) and not (isinstance(v, ast.UnaryOp) and isinstance(v.op, ast.Not)):
+            continue
+        reads = {x.id for x in ast.walk(v) if isinstance(x, ast.Name)}
+        if any(nstores.get(r, 0) > 1 for r in reads):
+            continue
+        out[n] = v
+    return out
+
+
+class _ExpandBool(ast.NodeTransformer):
+    def __init__(self, defs, depth=3):
+        self.defs, self.depth = defs, depth
+
+    def visit_Name(self, node):
+        if isinstance(node.ctx, ast.Load) and node.id in self.defs and self.depth > 0:
+            import copy
+            new = copy.deepcopy(self.defs[node.id])
+            return _ExpandBool(self.defs, self.depth - 1).visit(new)
+        return node
+
+
+def resolved_guard_atoms(g, node: int, fn) -> set:
+    """`guard_atom_set(g, node)` after replacing named conditions (boolean locals bound once) by their definition:
+    `if ordered and same_count:` with `same_count = a == b` yields the atom (`a == b`, True)."""
+    import copy
+    from ..astutil import test_atoms
+    defs = _bool_defs(fn)
+    out = set()
+    for t, pol in g.edge_guards(node):
+        if defs and any(isinstance(x, ast.Name) and x.id in defs for x in ast.walk(t)):
+            t = _ExpandBool(defs).visit(copy.deepcopy(t))
+            ast.fix_missing_locations(t)
+        out.update(test_atoms(t, pol))
+    return out
